@@ -59,3 +59,39 @@ fn random_ops() {
         }
     }
 }
+
+#[test]
+fn iter_mut_double_ended_and_hashset_additions() {
+    let mut r = Rng(0x1234_5678_9abc_def1);
+    for _ in 0..5000 {
+        let n = (r.next() % 9) as usize;
+        let mut a: Std<u32> = Std::new();
+        let mut b: M<u32> = M::new();
+        for _ in 0..n { let v = (r.next() % 100) as u32; a.push_back(v); b.push_back(v); }
+        // rev(), enumerate().rev(), mixed front/back consumption, range_mut().rev()
+        assert_eq!(a.iter_mut().rev().map(|x| *x).collect::<Vec<_>>(), b.iter_mut().rev().map(|x| *x).collect::<Vec<_>>());
+        assert_eq!(a.iter_mut().enumerate().rev().map(|(i, x)| (i, *x)).collect::<Vec<_>>(),
+                   b.iter_mut().enumerate().rev().map(|(i, x)| (i, *x)).collect::<Vec<_>>());
+        let s = (r.next() as usize) % (n + 1); let e = s + (r.next() as usize) % (n - s + 1);
+        assert_eq!(a.range_mut(s..e).len(), b.range_mut(s..e).len());
+        assert_eq!(a.range_mut(s..e).enumerate().rev().map(|(i, x)| (i, *x)).collect::<Vec<_>>(),
+                   b.range_mut(s..e).enumerate().rev().map(|(i, x)| (i, *x)).collect::<Vec<_>>());
+        {
+            let mut ia = a.iter_mut(); let mut ib = b.iter_mut();
+            for _ in 0..n + 2 {
+                assert_eq!(ia.len(), ib.len());
+                if r.next() % 2 == 0 { assert_eq!(ia.next(), ib.next()); } else { assert_eq!(ia.next_back(), ib.next_back()); }
+            }
+        }
+        // HashSet::retain / From<[T; N]>
+        let mut ha: std::collections::HashSet<u32> = a.iter().copied().collect();
+        let mut hb: verif_model::HashSet<u32> = b.iter().copied().collect();
+        ha.retain(|x| x % 2 == 0); hb.retain(|x| x % 2 == 0);
+        assert_eq!(ha.len(), hb.len());
+        for x in ha.iter() { assert!(hb.contains(x)); }
+        let fa: std::collections::HashSet<u32> = [7u32].into();
+        let fb: verif_model::HashSet<u32> = [7u32].into();
+        assert_eq!(fa.contains(&7), fb.contains(&7));
+        assert_eq!(fa.len(), fb.len());
+    }
+}
